@@ -1651,6 +1651,8 @@ struct ChildResult {
     deaths: u64,
     abandoned: Vec<usize>,
     harness_error: Option<String>,
+    /// watchdog expiries that did not repeat when the case was run alone (machine busy): counted, never a verdict
+    stalls: u64,
 }
 
 /// a unit whose cases kill the child this often is abandoned (every death is still reported)
@@ -1740,7 +1742,7 @@ fn run_range(exe: &std::path::Path, tier: Tier, seed: u64, from: usize, to: usiz
     let _ = std::fs::create_dir_all(&dir);
     let progress = dir.join("progress");
     let stderr_path = dir.join("stderr");
-    let mut res = ChildResult { ulines: vec![], vlines: vec![], deaths: 0, abandoned: vec![], harness_error: None };
+    let mut res = ChildResult { ulines: vec![], vlines: vec![], deaths: 0, abandoned: vec![], harness_error: None, stalls: 0 };
     let mut skip = (from, 0usize, 0usize);
     let mut deaths_in_unit: BTreeMap<usize, u32> = BTreeMap::new();
     loop {
@@ -1785,6 +1787,37 @@ fn run_range(exe: &std::path::Path, tier: Tier, seed: u64, from: usize, to: usiz
         if tail.contains("harness error") || tail.contains("harness panic") {
             res.harness_error = Some(tail);
             break;
+        }
+        if timed_out {
+            // A watchdog expiry is a wall-clock verdict: on a machine that is busy with other work a child can be starved
+            // for the whole period (seen in the fourth session: two expiries in a thorough run while three other sweeps
+            // shared the machine, neither reproducible). Appendix D: a limit hit is re-run ALONE before it is believed -
+            // the one case in a fresh child with a fresh watchdog; only a second expiry (or any other abnormal end) counts.
+            let v = VLine { unit: u, m, op, class: String::new(), path: String::new(), detail: String::new(), input_len: 0 };
+            let plan = make_plan(all, tier, seed, &v);
+            let plan_path = dir.join("confirm-plan.json");
+            let file = serde_json::json!({ "property": "C16", "identity": "", "plan": plan });
+            if std::fs::write(&plan_path, serde_json::to_string(&file).unwrap_or_default()).is_ok() {
+                let _ = std::fs::write(&progress, [0u8; 24]);
+                let (lines2, status2, timed_out2) = run_child_once(exe, &["c16-one".to_string(), plan_path.to_string_lossy().to_string()], &stderr_path, &progress);
+                let ended2 = lines2.iter().any(|l| l == "END");
+                if ended2 && status2.success() && !timed_out2 {
+                    // the case ends normally when run alone: its own verdicts (if any) count, the expiry does not
+                    for l in &lines2 {
+                        if let Some(j) = l.strip_prefix("V ") {
+                            if let Ok(mut x) = serde_json::from_str::<VLine>(j) {
+                                x.unit = u;
+                                x.m = m;
+                                x.op = op;
+                                res.vlines.push(x);
+                            }
+                        }
+                    }
+                    res.stalls += 1;
+                    skip = (u, m, op + 1);
+                    continue;
+                }
+            }
         }
         res.deaths += 1;
         *deaths_in_unit.entry(u).or_insert(0u32) += 1;
@@ -1870,6 +1903,7 @@ pub fn run(a: &Args16) -> i32 {
     let mut ulines: BTreeMap<usize, Vec<ULine>> = BTreeMap::new();
     let mut vlines: Vec<VLine> = vec![];
     let mut deaths = 0;
+    let mut stalls = 0u64;
     let mut abandoned: Vec<usize> = vec![];
     for r in results {
         if let Some(e) = r.harness_error {
@@ -1881,6 +1915,7 @@ pub fn run(a: &Args16) -> i32 {
         }
         vlines.extend(r.vlines);
         deaths += r.deaths;
+        stalls += r.stalls;
         abandoned.extend(r.abandoned);
     }
     if ulines.len() != n {
@@ -2026,6 +2061,7 @@ pub fn run(a: &Args16) -> i32 {
                 "damaged_inputs_accepted": accepted_damaged,
                 "class_writer_runs_on_accepted_input": writer_runs,
                 "child_deaths": deaths,
+                "watchdog_expiries_not_repeated_when_run_alone": stalls,
                 "units_abandoned_after_repeated_child_deaths": abandoned,
                 "duplicate_seed_inputs_not_counted": dup_seeds,
                 "runs_per_hour": if wall > 0.0 { (evals as f64 / wall * 3600.0) as u64 } else { 0 },
